@@ -595,6 +595,7 @@ func stageCanary(w *gal.Writer, r *gal.Rand) {
 		runDiscoveryCase(w, "memfs", kid)
 	}
 	stageCanary2(w, r)
+	stageCanary3(w, r)
 	tb, _ := json.Marshal(classTime)
 	fmt.Printf("STAT {\"seconds_per_experiment\": %s}\n", tb)
 	fmt.Printf("STAT %s\n", `{"canary":"root/ cache/ tmp/ out/ + decoys (host/, root2/, cachefoo/, outside/, decoy.txt, hostlink); snapshot = path, type, permission bits, link count, content hash"}`)
